@@ -10,7 +10,7 @@ INCLUDES  := -Ishim -I$(REPO) -I$(REPO)/bluetoe/sm/include -I$(REPO)/bluetoe/uti
              -I$(REPO)/bluetoe/bindings/nordic/include
 LDFLAGS   := $(SAN) -pthread
 
-HARNESSES := wl_sim nq_sim ring_sim irq_sim pdu_sim sdu_sim
+HARNESSES := wl_sim nq_sim ring_sim irq_sim pdu_sim sdu_sim gatt_sim
 
 REPO_OBJS := $(BUILD)/repo/address.o $(BUILD)/repo/channel_map.o $(BUILD)/repo/delta_time.o $(BUILD)/repo/connection_details.o
 
@@ -35,9 +35,32 @@ $(BUILD)/%.o: harness/%.cpp sim/sim.hpp
 $(BUILD)/%: $(BUILD)/%.o $(BUILD)/sim.o $(REPO_OBJS)
 	$(CXX) $^ $(LDFLAGS) -o $@
 
+# ---- gatt_sim: generated server configurations (declaration + model table from one abstract description)
+GATT_CONFIGS ?= 16
+GATT_SEED    ?= 0
+GATT_IDS     := $(shell seq 0 $$(( $(GATT_CONFIGS) - 1 )))
+GATT_CFG_SRC := $(foreach i,$(GATT_IDS),$(BUILD)/gen/gatt_cfg_$(i).cpp)
+GATT_CFG_OBJ := $(foreach i,$(GATT_IDS),$(BUILD)/gen/gatt_cfg_$(i).o)
+
+$(BUILD)/gen/gatt_cfg_list.hpp: gen/gen_configs.py Makefile
+	@mkdir -p $(BUILD)/gen
+	python3 gen/gen_configs.py $(BUILD)/gen $(GATT_CONFIGS) $(GATT_SEED)
+
+$(GATT_CFG_SRC): $(BUILD)/gen/gatt_cfg_list.hpp
+
+$(BUILD)/gen/%.o: $(BUILD)/gen/%.cpp harness/gatt_world.hpp sim/sim.hpp
+	$(CXX) $(CXXFLAGS) $(INCLUDES) -Iharness -I$(BUILD)/gen -MMD -c $< -o $@
+
+$(BUILD)/gatt_sim.o: harness/gatt_sim.cpp harness/gatt_world.hpp $(BUILD)/gen/gatt_cfg_list.hpp sim/sim.hpp
+	@mkdir -p $(dir $@)
+	$(CXX) $(CXXFLAGS) $(INCLUDES) -Iharness -I$(BUILD)/gen -MMD -c $< -o $@
+
+$(BUILD)/gatt_sim: $(BUILD)/gatt_sim.o $(GATT_CFG_OBJ) $(BUILD)/sim.o $(REPO_OBJS)
+	$(CXX) $^ $(LDFLAGS) -o $@
+
 clean:
 	rm -rf $(BUILD)
 
 .PHONY: all clean
 .SECONDARY:
--include $(wildcard $(BUILD)/*.d) $(wildcard $(BUILD)/repo/*.d)
+-include $(wildcard $(BUILD)/*.d) $(wildcard $(BUILD)/repo/*.d) $(wildcard $(BUILD)/gen/*.d)
